@@ -198,6 +198,12 @@ def apply_rule_units(world):
                 cl.append(("covered-length-of-the-new-production", ["C15", "C09"],
                            r.attrs.get("max_covered_chars") == want[-1].attrs["mend"] - want[0].attrs["mstart"]))
                 cl.append(("receiver-unchanged", ["C15", "C12"], pp.attrs["prod"] == tuple(items) and pp.attrs["rules"] == (100, "ruleA")))
+                # second half of the no-alias invariant: the items of a production are pairwise distinct objects if
+                # they were before and the rule's value is a new object (wrapper clause result-is-none-of-the-arguments);
+                # base case: the initial productions are tuples of distinct pattern matches (_regex_stack, strictly
+                # increasing indices into a list built from a set)
+                cl.append(("items-stay-pairwise-distinct-objects", ["C15", "C12"],
+                           isinstance(p2, tuple) and all(p2[i] is not p2[j] for i in range(len(p2)) for j in range(i + 1, len(p2)))))
             return cl
         return FuncUnit("partial_parse.PartialParse.apply_rule[n=%d,window=%d:%d,%s]" % (n, a_, b_, "None" if returns_none else "value"),
                         ["partial_parse.PartialParse.apply_rule", "partial_parse.PartialParse.__init__"],
@@ -265,7 +271,9 @@ def regex_stack_units(world):
             if not ok:
                 return [("returns-sequences", ["C15"], False)]
             idx = [tuple(ms.index(x) for x in t) for t in r]
-            cl = [("each-sequence-once", ["C15"], len(set(idx)) == len(idx))]
+            cl = [("each-sequence-once", ["C15"], len(set(idx)) == len(idx)),
+                  # base case of the no-alias invariant of productions: no match object twice in a sequence
+                  ("strictly-increasing-match-indices", ["C15", "C12"], all(all(a < b for a, b in zip(t, t[1:])) for t in idx))]
             goals = []
             if not real_dist:
                 for k in range(1, n + 1):
@@ -418,6 +426,47 @@ class BoundedSearchUnit:
         return [o], info
 
 
+class DeriveUnit:
+    """bounded stand-in for C15's statement about the WHOLE search (replay/bounded_derive.py): streamed candidates vs. the
+    naive closure of rule applications, for five scorers, without and with a depth limit"""
+    kind = "bounded"
+    name = "ctparse._ctparse[bounded reference search]"
+    qualnames = ["ctparse._ctparse", "ctparse.ctparse_gen", "partial_parse.PartialParse.apply_rule", "partial_parse.PartialParse._filter_rules",
+                 "partial_parse._seq_match", "ctparse._match_rule", "ctparse._regex_stack", "ctparse._match_regex"]
+    props = {"C15"}
+    cost = 9
+
+    def sha(self, world):
+        return "+".join(world.sha(world.func(q)) for q in self.qualnames)
+
+    def run(self, world, prop, tier):
+        import json
+        import os
+        import subprocess
+        from pyvc.vcgen import Obligation
+        from pyvc import world as W
+        env = dict(os.environ, PYTHONPATH=world.repo + os.pathsep + W.VERIF, PYTHONDONTWRITEBYTECODE="1")
+        seed = os.environ.get("VERIF_SEED", "0") or "0"
+        p = subprocess.run([W.VENV_PY, "-W", "ignore", os.path.join(W.VERIF, "replay", "bounded_derive.py"), tier, seed],
+                           cwd=world.repo, env=env, capture_output=True, text=True, timeout=6000)
+        o = Obligation(self.name, "streamed-candidates-are-exactly-what-the-rules-license", ["C15"])
+        o.kind, o.bounded, o.paths = "bounded", True, 1
+        info = {"paths": 1}
+        try:
+            r = json.loads(p.stdout.strip().splitlines()[-1])
+        except Exception:
+            o.status, o.detail = "unsupported", "bounded check crashed: " + (p.stderr or p.stdout)[-800:]
+            return [o], info
+        info["bounded"] = [{"what": self.name, "bound": r["bound"], "cases": r["cases"], "distinct": r["distinct"], "failures": r["n_bad"],
+                            "texts_skipped_because_the_closure_is_too_large": r["skipped_closure_too_large"], "props": ["C15"]}]
+        if r["bad"]:
+            o.status = "failed"
+            o.detail = json.dumps(r["bad"][0], ensure_ascii=False)[:600]
+            o.cex = {"args": {"kind": "bounded", "examples": r["bad"][:5]}}
+            o.confirmed_natively = True
+        return [o], info
+
+
 def from_regex_matches_unit(world):
     """PartialParse.from_regex_matches: fresh partial parse over exactly the given matches, trace = their
     ids, applicable rules = a sub-dictionary of the rule base; nothing outside the call is written"""
@@ -565,11 +614,19 @@ class PredicateUnit:
 
 
 def units(world):
-    return [match_rule_unit(world), lt_unit(world), GapUnit(), BoundedSearchUnit(), from_regex_matches_unit(world), PredicateUnit()] + apply_rule_units(world) + regex_stack_units(world)
+    return [match_rule_unit(world), lt_unit(world), GapUnit(), BoundedSearchUnit(), DeriveUnit(), from_regex_matches_unit(world), PredicateUnit()] + apply_rule_units(world) + regex_stack_units(world)
 
 
 # ---------------------------------------------------------------------------------------------
 # one iteration of the production loop of _ctparse, from an arbitrary state (loop-body contract)
+class _AllClauses:
+    def __contains__(self, x):
+        return True
+
+
+FRAGMENT_CLAUSES = _AllClauses()
+
+
 def production_step_units(world):
     from pyvc.values import SymMap, ModVal
     from pyvc.interp import Frame
@@ -646,7 +703,7 @@ def production_step_units(world):
                             "stack_prod": SP, "parse_prod": SymMap("parse_prod"), "max_stack_depth": depth,
                             "subject": Tok("subject"), "labels": Tok("labels")})
             # exactly one iteration of the loop body
-            it.exec_block(loop.body, fr)
+            it.exec_fragment(loop.body, fr)
             return (fr.vars["stack"], fr.yielded)
 
         def ens(it, w, a, r):
@@ -694,6 +751,9 @@ def production_step_units(world):
         u = FuncUnit("ctparse._ctparse.production-step[%s,depth=%d]" % (new_kind, depth), ["ctparse._ctparse"],
                      ["C15", "C14", "C13", "C03"], setup, call, ens, check_frame=False, prop_map={"safety": ["C15", "C01"]})
         u.cost = 3
+        # a fragment executed in a frame the unit builds: a failed clause counts only when the real search deviates from
+        # the reference closure (replay), otherwise the code merely changed shape
+        u.shape_only_clauses = FRAGMENT_CLAUSES
         return u
     return [mk("none", 10), mk("value", 0), mk("value", 2), mk("value", 10)]
 
@@ -751,7 +811,7 @@ def initial_filter_unit(world):
                 raise Unsupported("initial-stack filter block not found")
             fr = Frame(f, None)
             fr.vars.update({"stack": list(items), "relative_match_len": rml, "max_stack_depth": depth})
-            it.exec_block(stmts, fr)
+            it.exec_fragment(stmts, fr)
             return fr.vars["stack"]
 
         def ens(it, w, a, r):
@@ -777,6 +837,7 @@ def initial_filter_unit(world):
                      check_frame=False, prop_map={"safety": ["C15", "C01"]})
         u.bounded_desc = "initial stack of exactly 3 candidate sequences with symbolic coverage, score and relative_match_len"
         u.bounded_except = ()
+        u.shape_only_clauses = FRAGMENT_CLAUSES
         return u
     return [mk(0), mk(2), mk(10)]
 
